@@ -44,6 +44,37 @@ type cellTr struct {
 	ncell   int
 	globals map[string]ast.Expr // package-level var initialisers
 	ret     []cval
+	// element-API mode: methods of *Element are inlined (aliasing is cell identity), nil guards become Option
+	src      *pkgSrc
+	apiMode  bool
+	depth    int
+	optional map[string]bool // top-level parameters tested against nil
+	nilGuard *cellGuard      // `if p == nil { return … }` at the top of the translated method
+	ifGuard  *cellGuard      // `if <bool> { return … }` at the top of the translated method (after the lets of the condition)
+	done     bool            // a return was executed in the current (inlined) body
+	topElems map[string]cval // top-level element parameters (representative of each alias class)
+	maybeNil map[string]bool // top-level parameters that the caller may pass as nil (not yet guarded)
+}
+
+// cellGuard: an early return at the top of an API method
+type cellGuard struct {
+	names    []string // nil-tested parameters (nilGuard)
+	cond     string   // Lean Bool term (ifGuard)
+	nout     int      // number of emitted lines before the guard
+	retParam string   // the top-level parameter the early return hands back
+}
+
+// topParamOf: the top-level element parameter whose cells v denotes ("" if v is some other object)
+func (t *cellTr) topParamOf(v cval) string {
+	if v.kind != "elem" {
+		return ""
+	}
+	for name, g := range t.topElems {
+		if g.xyz == v.xyz {
+			return name
+		}
+	}
+	return ""
 }
 
 func (t *cellTr) fresh(prefix string) string { t.n++; return fmt.Sprintf("%s%d", prefix, t.n) }
@@ -193,6 +224,12 @@ func (t *cellTr) eval(e ast.Expr) cval {
 	case *ast.CompositeLit:
 		return t.composite(x)
 	case *ast.BinaryExpr:
+		if t.apiMode && (x.Op == token.NEQ || x.Op == token.EQL) {
+			if lit, ok := x.Y.(*ast.BasicLit); ok {
+				rel := map[token.Token]string{token.NEQ: "!=", token.EQL: "=="}[x.Op]
+				return cval{kind: "bool", expr: fmt.Sprintf("(%s %s %s)", t.u64(x.X), rel, lit.Value)}
+			}
+		}
 		op := map[token.Token]string{token.AND: "Nat.land", token.OR: "Nat.lor", token.XOR: "Nat.xor"}[x.Op]
 		if op == "" {
 			t.fail(e, "binary "+x.Op.String())
@@ -231,6 +268,13 @@ func (t *cellTr) call(x *ast.CallExpr) cval {
 			v.xyz[i] = t.newCell("F.zero")
 		}
 		return v
+	case "newElement":
+		if t.apiMode {
+			if fd, ok := t.src.funcs["newElement"]; ok {
+				return t.inline(fd, nil, nil, x)
+			}
+		}
+		t.fail(x, "call to newElement")
 	case "int", "uint64":
 		// conversions between integer types: the values converted here are 0/1 flags
 		if len(x.Args) != 1 {
@@ -251,6 +295,17 @@ func (t *cellTr) call(x *ast.CallExpr) cval {
 	}
 	recv := t.eval(sel.X)
 	m := sel.Sel.Name
+	if recv.kind == "elem" && t.apiMode {
+		fd, ok := t.src.funcs["Element."+m]
+		if !ok {
+			t.fail(x, "unknown method Element."+m)
+		}
+		var args []cval
+		for _, a := range x.Args {
+			args = append(args, t.eval(a))
+		}
+		return t.inline(fd, &recv, args, x)
+	}
 	if recv.kind != "ptr" {
 		t.fail(x, "method "+m+" on non field value")
 	}
@@ -326,6 +381,54 @@ func (t *cellTr) call(x *ast.CallExpr) cval {
 	}
 	t.fail(x, "method "+m)
 	return cval{}
+}
+
+// inline executes the body of another method of the package on the caller's cells: parameters are bound to the
+// caller's objects, so aliasing between receiver and arguments is simply cell identity.
+func (t *cellTr) inline(fd *ast.FuncDecl, recv *cval, args []cval, node ast.Node) cval {
+	if t.depth > 6 {
+		t.fail(node, "inlining too deep")
+	}
+	saveEnv, saveRet, saveName := t.env, t.ret, t.fname
+	t.env, t.ret, t.fname = map[string]cval{}, nil, fd.Name.Name
+	t.depth++
+	if fd.Recv != nil {
+		if recv == nil {
+			t.fail(node, "method without receiver object")
+		}
+		for _, f := range fd.Recv.List {
+			for _, nm := range f.Names {
+				t.env[nm.Name] = *recv
+			}
+		}
+	}
+	i := 0
+	for _, f := range fd.Type.Params.List {
+		for _, nm := range f.Names {
+			if i >= len(args) {
+				t.fail(node, "inline arity")
+			}
+			t.env[nm.Name] = args[i]
+			i++
+		}
+	}
+	if i != len(args) {
+		t.fail(node, "inline arity")
+	}
+	for _, s := range fd.Body.List {
+		if t.stmt(s) {
+			break
+		}
+	}
+	var res cval
+	if len(t.ret) == 1 {
+		res = t.ret[0]
+	} else if len(t.ret) > 1 {
+		res = cval{kind: "multi", more: t.ret}
+	}
+	t.depth--
+	t.env, t.ret, t.fname = saveEnv, saveRet, saveName
+	return res
 }
 
 func (t *cellTr) bind(name string, v cval) {
@@ -424,6 +527,58 @@ func (t *cellTr) stmt(s ast.Stmt) bool {
 			t.emit(n, fmt.Sprintf("FieldOps.sqn F %d %s", b-a, t.cur[r.c]))
 			t.set(r.c, n)
 		}
+	case *ast.IfStmt:
+		if !t.apiMode || x.Init != nil || x.Else != nil || len(x.Body.List) != 1 {
+			t.fail(s, "if statement")
+		}
+		rs, ok := x.Body.List[0].(*ast.ReturnStmt)
+		if !ok || len(rs.Results) != 1 {
+			t.fail(s, "guard body")
+		}
+		retParam := func() string {
+			rv := t.eval(rs.Results[0])
+			top := t.topParamOf(rv)
+			if top == "" {
+				t.fail(s, "early return of something other than a parameter")
+			}
+			return top
+		}
+		// nil test of a parameter
+		if be, ok := x.Cond.(*ast.BinaryExpr); ok && be.Op == token.EQL {
+			if nl, ok := be.Y.(*ast.Ident); ok && nl.Name == "nil" {
+				id, ok := be.X.(*ast.Ident)
+				if !ok {
+					t.fail(s, "nil test of a non-identifier")
+				}
+				v, bound := t.env[id.Name]
+				if !bound {
+					t.fail(s, "nil test of unknown "+id.Name)
+				}
+				top := t.topParamOf(v)
+				if top == "" || !t.maybeNil[top] {
+					// an object of the caller (or a parameter already known to be non-nil): the guard is not taken
+					return false
+				}
+				if t.nilGuard != nil || t.ifGuard != nil || len(t.out) != 0 {
+					t.fail(s, "second guard")
+				}
+				t.optional[top] = true
+				t.maybeNil[top] = false
+				t.nilGuard = &cellGuard{names: []string{top}, retParam: retParam()}
+				return false
+			}
+		}
+		if t.depth > 0 {
+			t.fail(s, "data-dependent early return in an inlined method")
+		}
+		if t.nilGuard != nil || t.ifGuard != nil {
+			t.fail(s, "second guard")
+		}
+		c := t.eval(x.Cond)
+		if c.kind != "bool" {
+			t.fail(s, "guard condition is not a boolean")
+		}
+		t.ifGuard = &cellGuard{cond: c.expr, nout: len(t.out), retParam: retParam()}
 	case *ast.ReturnStmt:
 		for _, r := range x.Results {
 			t.ret = append(t.ret, t.eval(r))
@@ -491,8 +646,11 @@ type cellResult struct {
 }
 
 // translateCells emits one Lean definition for fn. classes groups parameter names that alias.
+var cellsAPIMode bool
+
 func translateCells(p *pkgSrc, pkg string, fn *ast.FuncDecl, leanName string, classes [][]string, globals map[string]ast.Expr) cellResult {
-	t := &cellTr{fset: p.fset, pkg: pkg, fname: fn.Name.Name, cur: map[*cell]string{}, dirty: map[*cell]bool{}, env: map[string]cval{}, globals: globals}
+	t := &cellTr{fset: p.fset, pkg: pkg, fname: fn.Name.Name, cur: map[*cell]string{}, dirty: map[*cell]bool{}, env: map[string]cval{}, globals: globals,
+		src: p, apiMode: cellsAPIMode, optional: map[string]bool{}, topElems: map[string]cval{}, maybeNil: map[string]bool{}}
 	kinds := map[string]string{}
 	var order []string
 	plist := fn.Type.Params.List
@@ -550,12 +708,20 @@ func translateCells(p *pkgSrc, pkg string, fn *ast.FuncDecl, leanName string, cl
 			v.kind = "ptr"
 			v.c = t.newCell(rep)
 		}
+		hasRecv := false
 		for _, nm := range cl {
 			if kinds[nm] != k {
 				t.fail(fn, "alias class mixes kinds")
 			}
 			t.env[nm] = v
 			covered[nm] = true
+			if fn.Recv != nil && len(fn.Recv.List) == 1 && len(fn.Recv.List[0].Names) == 1 && fn.Recv.List[0].Names[0].Name == nm {
+				hasRecv = true
+			}
+		}
+		if k == "elem" {
+			t.topElems[rep] = v
+			t.maybeNil[rep] = !hasRecv
 		}
 		groups = append(groups, group{rep, k, v})
 	}
@@ -599,6 +765,9 @@ func translateCells(p *pkgSrc, pkg string, fn *ast.FuncDecl, leanName string, cl
 		case "u64":
 			outs = append(outs, r.expr)
 			tys = append(tys, "Nat")
+		case "bool":
+			outs = append(outs, r.expr)
+			tys = append(tys, "Bool")
 		case "ptr":
 			if !paramCells[r.c] {
 				outs = append(outs, t.cur[r.c])
@@ -629,11 +798,40 @@ func translateCells(p *pkgSrc, pkg string, fn *ast.FuncDecl, leanName string, cl
 		}
 		return false
 	}
+	// the value of the function when an early return at its top is taken: written parameters keep their initial value
+	early := func(g *cellGuard) string {
+		if _, isParam := kinds[g.retParam]; !isParam {
+			t.fail(fn, "early return of a non-parameter")
+		}
+		var ev []string
+		for _, g2 := range groups {
+			d := false
+			if g2.kind == "elem" {
+				for _, c := range g2.v.xyz {
+					d = d || t.dirty[c]
+				}
+			} else {
+				d = t.dirty[g2.v.c]
+			}
+			if d {
+				ev = append(ev, g2.rep)
+			}
+		}
+		if len(ev) != len(outs) {
+			t.fail(fn, "early return in a method that also returns a value")
+		}
+		if len(ev) == 1 {
+			return ev[0]
+		}
+		return "(" + strings.Join(ev, ", ") + ")"
+	}
 	var b strings.Builder
 	fmt.Fprintf(&b, "def %s {α : Type} (F : FieldOps α)", leanName)
 	for _, g := range groups {
 		if g.kind == "elem" {
-			if used(g.rep, true) {
+			if t.optional[g.rep] {
+				fmt.Fprintf(&b, " (%s : Option (Pt α))", g.rep)
+			} else if used(g.rep, true) || t.nilGuard != nil || t.ifGuard != nil {
 				fmt.Fprintf(&b, " (%s : Pt α)", g.rep)
 			}
 		} else if used(g.rep, false) {
@@ -641,13 +839,34 @@ func translateCells(p *pkgSrc, pkg string, fn *ast.FuncDecl, leanName string, cl
 		}
 	}
 	b.WriteString(" : " + strings.Join(tys, " × ") + " :=\n")
-	if body != "" {
-		b.WriteString(body + "\n")
+	result := "  " + outs[0]
+	if len(outs) != 1 {
+		result = "  (" + strings.Join(outs, ", ") + ")"
 	}
-	if len(outs) == 1 {
-		b.WriteString("  " + outs[0] + "\n")
-	} else {
-		b.WriteString("  (" + strings.Join(outs, ", ") + ")\n")
+	switch {
+	case t.nilGuard != nil:
+		n := t.nilGuard.names[0]
+		fmt.Fprintf(&b, "  match %s with\n  | none => %s\n  | some %s =>\n", n, early(t.nilGuard), n)
+		if body != "" {
+			b.WriteString(body + "\n")
+		}
+		b.WriteString(result + "\n")
+	case t.ifGuard != nil:
+		lines := t.out
+		pre, post := lines[:t.ifGuard.nout], lines[t.ifGuard.nout:]
+		for _, l := range pre {
+			b.WriteString(l + "\n")
+		}
+		fmt.Fprintf(&b, "  if %s then %s else\n", t.ifGuard.cond, early(t.ifGuard))
+		for _, l := range post {
+			b.WriteString(l + "\n")
+		}
+		b.WriteString(result + "\n")
+	default:
+		if body != "" {
+			b.WriteString(body + "\n")
+		}
+		b.WriteString(result + "\n")
 	}
 	return cellResult{text: b.String(), untouched: untouched}
 }
@@ -732,4 +951,47 @@ func genCurve(field, scal, root *pkgSrc, out string) {
 		{root, "root", "SSWU", "sswu", nil},
 		{root, "root", "IsogenySecp256k13iso", "isogeny", nil},
 	}, "Curve", "import Secp.Gen.SqrtRatio", out+"/Curve.lean")
+	// the API methods of element.go, with the methods they call inlined on shared cells (one definition per aliasing pattern)
+	cellsAPIMode = true
+	genCellsTolerant([]cellJob{
+		{root, "root", "Element.Identity", "identity", nil},
+		{root, "root", "Element.IsIdentity", "isIdentity", nil},
+		{root, "root", "Element.Add", "add_e_v", [][]string{{"e"}, {"element"}}},
+		{root, "root", "Element.Add", "add_ev", [][]string{{"e", "element"}}},
+		{root, "root", "Element.Double", "double", nil},
+		{root, "root", "Element.Negate", "negate", nil},
+		{root, "root", "Element.Subtract", "subtract_e_v", [][]string{{"e"}, {"element"}}},
+		{root, "root", "Element.Subtract", "subtract_ev", [][]string{{"e", "element"}}},
+		{root, "root", "Element.Equal", "equal_e_v", [][]string{{"e"}, {"element"}}},
+		{root, "root", "Element.Equal", "equal_ev", [][]string{{"e", "element"}}},
+		{root, "root", "Element.Set", "set", [][]string{{"e"}, {"element"}}},
+		{root, "root", "Element.Copy", "copy", nil},
+	}, "GenElementAPI", "import Secp.FieldOps", out+"/ElementAPI.lean")
+	cellsAPIMode = false
+}
+
+// genCellsTolerant: like genCells, but a method outside the accepted subset is left out (with a note) instead of stopping
+// the whole regeneration: only the ties that mention it then fail.
+func genCellsTolerant(jobs []cellJob, ns, imports, outPath string) {
+	var b strings.Builder
+	b.WriteString(header)
+	b.WriteString(imports + "\nnamespace " + ns + "\n\n")
+	for _, j := range jobs {
+		fd, ok := j.pkg.funcs[j.fn]
+		if !ok {
+			fmt.Fprintf(&b, "-- NOT TRANSLATED: %s (not found)\n\n", j.fn)
+			continue
+		}
+		func() {
+			defer func() {
+				if r := recover(); r != nil {
+					fmt.Fprintf(&b, "-- NOT TRANSLATED: %s as %s (%v)\n\n", j.fn, j.lean, strings.ReplaceAll(fmt.Sprint(r), "\n", " "))
+				}
+			}()
+			r := translateCells(j.pkg, j.pkgName, fd, j.lean, j.classes, pkgGlobals(j.pkg))
+			b.WriteString(r.text + "\n")
+		}()
+	}
+	b.WriteString("end " + ns + "\n")
+	writeIfChanged(outPath, b.String())
 }
